@@ -44,6 +44,9 @@ fn main() {
         })
     };
     match args[1].as_str() {
+        "bench" => {
+            props::c10::bench();
+        }
         "list" => {
             for p in &props {
                 println!("{}", p.id);
